@@ -69,7 +69,7 @@ func (rt *RoundTripper) cachedResponse(req *http.Request) (*http.Response, error
 	ctx := req.Context()
 	cch := cache.Ctx(ctx)
 
-	respDump, err := cch.Get(ctx, cacheKey(req))
+	respDump, err := cch.Get(ctx, rt.cacheKey(req))
 	if err != nil {
 		return nil, ErrNoCacheEntry
 	}
@@ -131,7 +131,7 @@ func (rt *RoundTripper) cacheResponse(req *http.Request, resp *http.Response) {
 
 	ctx := req.Context()
 	cch := cache.Ctx(ctx)
-	cch.Set(ctx, cacheKey(req), respDump, ttl) //nolint:errcheck
+	cch.Set(ctx, rt.cacheKey(req), respDump, ttl) //nolint:errcheck
 }
 
 // currentAge calculates the age of the response as defined in RFC 7234, section 4.2.3
@@ -150,10 +150,13 @@ func currentAge(resp *http.Response) time.Duration {
 	return age
 }
 
-func cacheKey(req *http.Request) string {
+func (rt *RoundTripper) cacheKey(req *http.Request) string {
 	hash := sha256.New()
 
 	hash.Write(stringx.ToBytes("RFC 7234"))
+	// responses, which do not define their freshness lifetime, are stored for the configured default ttl. A round
+	// tripper configured with a different one must not make use of them beyond its own.
+	hash.Write(stringx.ToBytes(rt.DefaultCacheTTL.String()))
 	hash.Write(stringx.ToBytes(req.URL.String()))
 	hash.Write(stringx.ToBytes(req.Method))
 
